@@ -31,3 +31,27 @@ Section Stored.
     - apply token_transport; assumption.
   Qed.
 End Stored.
+
+(* non-vacuity: a concrete archive meets every hypothesis (identity-multihash CIDs, so any digest function does) *)
+Definition ex_token : utoken :=
+  mkU (bs "0.9.1") [237; 1; 7] [237; 1; 9] [237; 161; 3; 1; 1]
+      [mkCapm (bs "did:key:zAlice") (bs "store/add") (IMap [(bs "size", IInt 5)])] None (Some 1900000000%Z) None (Some (bs "n")) None.
+Definition ex_l : bstr := cidv1 113 (mh_encode 0 (token_bytes ex_token)).
+Definition ex_vc : bstr := cidv1 113 (mh_encode 0 (cbor_encode (archive_ipld ex_l))).
+
+Example ex_archive_hyps :
+  roots_ok 1 [ex_vc] /\ Forall (block_ok toy_digest) (archive_blocks [] ex_l ex_token ex_vc) /\
+  wf_ipld (token_ipld ex_token) = true /\ in_budget (token_ipld ex_token) = true /\
+  wf_ipld (archive_ipld ex_l) = true /\ in_budget (archive_ipld ex_l) = true.
+Proof.
+  split; [|split; [|repeat split; vm_compute; reflexivity]].
+  - split; [|vm_compute; discriminate].
+    apply Forall_cons; [|apply Forall_nil].
+    apply (wf_v1 113 0 (cbor_encode (archive_ipld ex_l))); [reflexivity | reflexivity | vm_compute; discriminate].
+  - unfold archive_blocks. cbn [app].
+    apply Forall_cons; [|apply Forall_cons; [|apply Forall_nil]].
+    + split; [apply (wf_v1 113 0 (token_bytes ex_token)); [reflexivity | reflexivity | vm_compute; discriminate]|].
+      split; vm_compute; [reflexivity|discriminate].
+    + split; [apply (wf_v1 113 0 (cbor_encode (archive_ipld ex_l))); [reflexivity | reflexivity | vm_compute; discriminate]|].
+      split; vm_compute; [reflexivity|discriminate].
+Qed.
